@@ -66,6 +66,12 @@ class TlcResult:
         self.generated = int(m.group(1)) if m else 0
         self.distinct = int(m.group(2)) if m else 0
         self.queue = int(m.group(3)) if m else -1
+        if not m:  # stopped by the time limit: take the last progress line
+            pm = None
+            for pm in re.finditer(r"^Progress\(\d+\) at [^:]+:\d+:\d+: ([\d,]+) states generated .*?, ([\d,]+) distinct states found", out, re.M):
+                pass
+            if pm:
+                self.generated, self.distinct = int(pm.group(1).replace(",", "")), int(pm.group(2).replace(",", ""))
         d = TLC_DEPTH.search(out)
         self.depth = int(d.group(1)) if d else 0
         i = TLC_INV.search(out)
